@@ -336,9 +336,53 @@ func (g *gen) event(contract, addr, name string, depth int) *EvDecl {
 func (g *gen) emitOf(d *EvDecl) *Emit {
 	e := &Emit{Decl: d}
 	for _, p := range d.Params {
+		if p.T.K == "opt" && g.r.Chance(1, 2) {
+			e.Args = append(e.Args, g.optionalForm(p.T))
+			continue
+		}
 		e.Args = append(e.Args, g.raw(p.T, 2))
 	}
 	return e
+}
+
+// optionalForm: an argument for a parameter of optional type t = U? whose STATIC type is already t
+// while the run-time value of the expression may be unboxed or boxed depending on how the engine
+// evaluates it: conditional expressions with one non-optional and one nil branch, nil-coalescing,
+// dictionary lookup (optional result), `as?` casts, function results of optional type, force-unwrap.
+// In every form the event must carry box(inner, t); the model is given the inner value.
+// "§" is the prefix of contract A's declarations (yes()/no() are view functions of A).
+func (g *gen) optionalForm(t *Ty) *Val {
+	u := t.Elem
+	in := g.exact(u, 1)
+	ts, us := t.cdc("§"), u.cdc("§")
+	out := *in
+	var forms []string
+	if u.K != "opt" {
+		forms = append(forms,
+			"(§yes() ? "+in.Expr+" : nil)",
+			"(§no() ? nil : "+in.Expr+")",
+			"(§no() ? (nil as "+ts+") : "+in.Expr+")",
+			"(§yes() ? "+in.Expr+" : (nil as "+ts+"))",
+			"(("+in.Expr+" as "+ts+") ?? "+in.Expr+")",
+		)
+	}
+	forms = append(forms,
+		"((nil as ("+ts+")?) ?? (§yes() ? ("+in.Expr+" as "+ts+") : nil))",
+		"(({\"k\": "+in.Expr+"} as {String: "+us+"})[\"k\"])",
+		"("+in.Expr+" as? "+us+")",
+		"(("+in.Expr+" as ("+ts+")?)!)",
+		"(fun (): "+ts+" { return "+in.Expr+" })()",
+	)
+	switch g.r.Intn(6) {
+	case 0: // absent key / failing branch: nil
+		nilForms := []string{
+			"(({\"k\": " + in.Expr + "} as {String: " + us + "})[\"z\"])",
+			"(§no() ? (" + in.Expr + " as " + ts + ") : nil)",
+		}
+		return &Val{K: "nil", Expr: lib.Pick(g.r, nilForms)}
+	}
+	out.Expr = lib.Pick(g.r, forms)
+	return &out
 }
 
 // ---- resources with default destruction events
